@@ -27,9 +27,9 @@ import gen_ast
 import lib
 
 SPECIAL = {"save": {"save", "load"}, "flows": {"switch_flow", "switch_default", "remove_flow"}, "reset": {"reset"},
-           "eval": {"eval_fn"}, "observe": {"observe", "remove_observer"}, "slices": {"cont_async"}, "refuse": None, "plain": None, "externs": None}
+           "eval": {"eval_fn"}, "observe": {"observe", "remove_observer"}, "slices": {"cont_async"}, "refuse": None, "plain": None, "externs": None, "mixed": None}
 OWNER = {"save": "C02", "flows": "C10", "reset": "C17", "refuse": "C09", "plain": "C01", "eval": "C16", "observe": "C11",
-         "slices": "C08", "externs": "C12"}
+         "slices": "C08", "externs": "C12", "mixed": "C09"}
 
 
 def chars(s):
@@ -57,6 +57,10 @@ def history(rnd, prog, profile, length):
         for v in gvars:
             ops.append({"op": "observe", "obs": 1, "var": v})
     names = list(weights)
+    if profile == "mixed":
+        # everything together: a hunting profile (not part of a registered check; whatever it finds is attributed by hand)
+        weights.update(save=1.5, load=1.5, switch_flow=1.5, switch_default=0.7, remove_flow=0.7, reset=0.5, eval_fn=2,
+                       observe=1, remove_observer=0.5, watch=0.5)
     if profile == "externs":
         weights.update(cont=14, choose=5, set_var=0.5, choose_path=0.7)
     if profile == "slices":
